@@ -366,6 +366,13 @@ type DP struct {
 	Friends  []*DP `gorm:"many2many:dp_friends"`
 	Notes    []DN  `gorm:"polymorphic:Owner;polymorphicValue:xp;polymorphicType:Kind;polymorphicId:OID"`
 	Info     DInfo `gorm:"embedded;embeddedPrefix:info_"`
+	Code     string
+	Subs     []DU `gorm:"references:Code"` // only the referenced field is named: the foreign key DPCode is found by convention
+}
+type DU struct {
+	ID int64
+	Base
+	DPCode *string
 }
 type DO struct {
 	ID int64
